@@ -436,6 +436,10 @@ class Engine:
     def getattr(self, base, attr, fr, path):
         if attr == "__class__" and not isinstance(base, (Obj, ClassRef, ModRef, SuperRef)):
             return PyTypeOf(base)
+        if attr == "__name__" and isinstance(base, (PyTypeOf, ClassRef)):
+            if isinstance(base, ClassRef):
+                return base.name
+            return SStr([Atom(z3.FreshConst(z3.StringSort(), "typename"), "opq")])     # every type has a name, a str
         if isinstance(base, Unknown):
             base = self.force_value(path, base)
         if isinstance(base, Obj):
@@ -492,6 +496,10 @@ class Engine:
             return ModRef(full, None)
         if isinstance(base, SuperRef):
             fi = base.cls.find_method(attr, after=base.cls)
+            if fi is None and attr == "__init__" and all(not c.bases and len(c.base_exprs) == 1 and isinstance(c.base_exprs[0], ast.Name)
+                                                         and c.base_exprs[0].id == "Exception" for c in base.cls.mro()[-1:]):
+                # BaseException.__init__(*args) stores its arguments and cannot fail (E13): a total no-op for the verifier
+                return PyBuiltin("__exception_base_init__")
             if fi is None:
                 raise Limitation(f"super().{attr}")
             return BoundMethod(base.obj, attr, fi)
@@ -1165,6 +1173,10 @@ class Engine:
         return self.call(f, args, kwargs, fr, path, node)
 
     def call(self, f, args, kwargs, fr, path, node=None):
+        if isinstance(f, PyBuiltin) and f.name == "__exception_base_init__":
+            if kwargs:
+                raise RaiseExc("TypeError", implicit=True, info="BaseException.__init__() takes no keyword arguments")
+            return None
         if isinstance(f, PyBuiltin):
             return self.call_builtin(f.name, args, kwargs, fr, path)
         if isinstance(f, BuiltinSpec):
